@@ -1083,7 +1083,27 @@ fn b_fft_stream(rng: &mut Rng, ctx: &Ctx) -> Built {
     let (b, o) = FftStream::new(r, size);
     Built {
         dut: dut1("FftStream", json!({"size": size}), b, inp, vec![Box::new(CopyOut::new(o))]),
-        spec: None,
+        // size-aligned blocks, each the unnormalised forward DFT of the input block
+        // (computed in f64; compared within a rounding bound by blockprops)
+        spec: Some(Box::new(move |i| {
+            let v = c32s(&i[0]);
+            let nblocks = v.len() / size;
+            let mut out = Vec::with_capacity(nblocks * size);
+            for b in 0..nblocks {
+                let blk = &v[b * size..(b + 1) * size];
+                for k in 0..size {
+                    let (mut re, mut im) = (0f64, 0f64);
+                    for (n, x) in blk.iter().enumerate() {
+                        let ang = -2.0 * std::f64::consts::PI * ((k * n) % size) as f64 / size as f64;
+                        let (s, c) = ang.sin_cos();
+                        re += x.re as f64 * c - x.im as f64 * s;
+                        im += x.re as f64 * s + x.im as f64 * c;
+                    }
+                    out.push(C32::new(re as f32, im as f32));
+                }
+            }
+            vec![Data::C32(out)]
+        })),
         tagspec: None,
         spec_ulps: 0,
     }
@@ -1211,20 +1231,71 @@ fn b_null_sink(rng: &mut Rng, ctx: &Ctx) -> Built {
     let b = NullSink::new(r);
     Built { dut: dut1("NullSink<f32>", json!({}), b, inp, vec![]), spec: None, tagspec: None, spec_ulps: 0 }
 }
+/// Pseudo output port: what a VectorSink stored, read through its hook.
+struct HookOut {
+    hook: rustradio::vector_sink::Hook<f32>,
+}
+impl OutPort for HookOut {
+    fn drain(&mut self, _j: usize) -> usize {
+        0
+    }
+    fn available(&self) -> usize {
+        0
+    }
+    fn free(&self) -> usize {
+        usize::MAX / 2
+    }
+    fn capacity(&self) -> usize {
+        usize::MAX / 2
+    }
+    fn id(&self) -> usize {
+        usize::MAX
+    }
+    fn handles(&self) -> usize {
+        0
+    }
+    fn is_packet(&self) -> bool {
+        false
+    }
+    fn collected(&self) -> Data {
+        Data::F32(self.hook.data().samples().to_vec())
+    }
+    fn collected_len(&self) -> usize {
+        self.hook.data().samples().len()
+    }
+    fn tags(&self) -> &[OutTag] {
+        &[]
+    }
+    fn drop_reader(&mut self) {}
+    fn reader_dropped(&self) -> bool {
+        true
+    }
+}
 fn b_vector_sink(rng: &mut Rng, ctx: &Ctx) -> Built {
     let n = gen_len(rng, ctx, 4);
     let data = gen_f32(rng, n);
     let max = *rng.pick(&[0usize, 1, 100, 5000, 1_000_000]);
     let (inp, r) = tagged_in(rng, ctx, data);
     let b = VectorSink::new(r, max);
-    Built { dut: dut1("VectorSink<f32>", json!({"max_size": max}), b, inp, vec![]), spec: None, tagspec: None, spec_ulps: 0 }
+    let hook = b.hook();
+    Built {
+        dut: dut1("VectorSink<f32>", json!({"max_size": max}), b, inp, vec![Box::new(HookOut { hook })]),
+        // stores the first max_size samples, discards the rest
+        spec: Some(Box::new(move |i| {
+            let v = f32s(&i[0]);
+            vec![Data::F32(v.into_iter().take(max).collect())]
+        })),
+        tagspec: None,
+        spec_ulps: 0,
+    }
 }
 fn b_constant_source(rng: &mut Rng, _ctx: &Ctx) -> Built {
     let v = rng.next() as u32;
     let (b, o) = ConstantSource::new(v);
     Built {
         dut: Dut { name: "ConstantSource<u32>".into(), params: json!({"val": v}), block: Box::new(b), ins: vec![], outs: vec![Box::new(CopyOut::new(o))], keeps_history: 0, cleanup: None },
-        spec: None,
+        // "the same value, forever": the length is whatever was drained; checked by blockprops::spec_any_len
+        spec: Some(Box::new(move |_| vec![Data::U32(vec![v])])),
         tagspec: None,
         spec_ulps: 0,
     }
